@@ -1,0 +1,8 @@
+//go:build verif
+
+package fox
+
+import "github.com/tigerwill90/fox/internal/netutil"
+
+// VerifStripHostPort exposes the host normalisation applied before hostname matching.
+func VerifStripHostPort(h string) string { return netutil.StripHostPort(h) }
